@@ -7,7 +7,9 @@ mod invoc;
 mod c02;
 mod c03;
 mod c04;
+mod c05;
 mod c06;
+mod c08;
 mod c07;
 mod c14;
 mod c20;
@@ -47,7 +49,9 @@ fn main() {
         "C02" => c02::run(&o),
         "C03" => c03::run(&o),
         "C04" => c04::run(&o),
+        "C05" => c05::run(&o),
         "C06" => c06::run(&o),
+        "C08" => c08::run(&o),
         "C07" => c07::run(&o),
         "C14" => c14::run(&o),
         "C20" => c20::run(&o),
